@@ -23,9 +23,11 @@ let () =
       done;
       let fdb = v 10 and bpg = v 11 in
       let bc = n_of_int (fdb + v 13 * bpg) in
+      (* 14th field, optional: 1 = cluster ratio above 1 (bigalloc) *)
+      let big = Array.length t > 14 && v 14 = 1 in
       for i = 0 to v 8 - 1 do
-        Printf.printf "D %d %d %d\n" i (int_of_n (descriptor_block_loc s bc (n_of_int fdb) (n_of_int i)))
-          (int_of_n (descriptor_block_loc s bc (n_of_int (fdb + bpg)) (n_of_int i)))
+        Printf.printf "D %d %d %d\n" i (int_of_n (descriptor_block_loc_big big s bc (n_of_int fdb) (n_of_int i)))
+          (int_of_n (descriptor_block_loc_big big s bc (n_of_int (fdb + bpg)) (n_of_int i)))
       done;
       print_endline "END"
     | "L" ->
